@@ -182,8 +182,37 @@ def gen_case(ctx: Ctx, small: list[Any]) -> dict[str, Any]:
             "script": SCRIPT(events)}
 
 
+def gen_two_deliveries(ctx: Ctx, small: list[Any]) -> dict[str, Any]:
+    """the store is filled by two runs; the second delivery brings new traces and late spans of traces the first run
+    already hashed (their shape changes) — which shapes are represented must be those of the final store"""
+    r = ctx.rng
+    names = r.sample(["wf", "wf2"], k=r.choice([1, 2]))
+    traces = []
+    for t in range(r.choice([3, 5, 8])):
+        tr = r.choice(small) if r.random() < 0.6 else random_tree(r, "AB")
+        traces.append((r.choice(names), f"t{t}", tr, (100 + t, 200 + t)))
+    events = build_store(r, traces, shuffle=False)
+    late = set()
+    for name, jid, (ps, ls), _ in traces:
+        if len(ps) >= 2 and r.random() < 0.5:
+            # the last span of the trace (a leaf: nothing hangs below the highest index) arrives later
+            late.add(f"{jid}.{len(ps) - 1}")
+    new_traces = {jid for _, jid, _, _ in traces if r.random() < 0.3}
+    first = [e for e in events if e["id"] not in late and e["jobId"] not in new_traces]
+    second = [e for e in events if e["id"] in late or e["jobId"] in new_traces]
+    if r.random() < 0.5:
+        second = second + r.sample(first, k=min(2, len(first)))   # and some spans sent again
+    r.shuffle(first)
+    r.shuffle(second)
+    batch = r.choice([1, 2, 3, 1000])
+    ctx.tick("two_deliveries")
+    ctx.tick("late_spans", len(late))
+    return {"batch": batch, "buffer": 0, "events": events, "traces": traces, "file_db": True, "two": True,
+            "script": [["ingest", first], ["unique"], ["newrun"], ["ingest", second], ["unique"]]}
+
+
 def run_cases(ctx: Ctx, cases: list[dict[str, Any]]) -> None:
-    mcases = [{**c, "script": c["script"][:6]} for c in cases]
+    mcases = [c if c.get("two") else {**c, "script": c["script"][:6]} for c in cases]
     try:
         model = sl.run_model(mcases)
     except Exception as ex:  # noqa: BLE001
@@ -192,6 +221,26 @@ def run_cases(ctx: Ctx, cases: list[dict[str, Any]]) -> None:
     for case, mres in zip(cases, model):
         if ctx.too_many():
             break
+        if case.get("two"):
+            try:
+                ires = sl.run_impl(case["script"], case["batch"], case["buffer"], True)
+            except Exception as ex:  # noqa: BLE001
+                ires = [f"{type(ex).__name__}: {str(ex)[:200]}"] * 5
+            want = oracle(case["traces"], case["buffer"], case["events"])
+            ctx.case({"e": case["script"], "b": case["batch"]}, True,
+                     sample={"two_deliveries": True, "batch": case["batch"], "selected": ires[4]}
+                     if ctx.cov["evaluations"] % 67 == 0 else None)
+            inp = {k: case[k] for k in ("batch", "buffer", "events", "traces", "script")}
+            bad = judge(want, ires[4])
+            if bad:
+                ctx.violation("after a second delivery (late spans of traces hashed by the first run): " + bad,
+                              {"input": inp, "observed": [ires[1], ires[4]]})
+            elif mres is not None:
+                d = sl.unique_matches(mres[4], ires[4])
+                if d:
+                    ctx.violation("correspondence: " + d, {"input": inp, "model": mres[4], "impl": ires[4]},
+                                  key=("corr", inp), concrete=False)
+            continue
         try:
             ires = sl.run_impl(case["script"], case["batch"], case["buffer"], False)
         except Exception as ex:  # noqa: BLE001
@@ -252,6 +301,8 @@ def run(ctx: Ctx) -> None:
                 ctx.tick("exhaustive_store")
     for _ in range(300 if quick else 3000):
         cases.append(gen_case(ctx, small))
+    for _ in range(60 if quick else 600):
+        cases.append(gen_two_deliveries(ctx, small))
     for i in range(0, len(cases), 200):
         run_cases(ctx, cases[i:i + 200])
     ctx.cov["exhaustive"] = False
